@@ -17,8 +17,8 @@ CHECKS = {
          "8.C04", "TLC enumerates the universe of node shapes (MC_Step: 9 actions x 2 renderings x 2 branching types x 0..1 branches (quick) / 0..2 (thorough, every 4th exported) x 3 error settings x 3 states x 3 pending) and every exported case is driven; plus seeded generation over a wider vocabulary; branch patterns restricted to the fragment where the reference matcher is exact; nil-bindings states judged for totality only",
          "TLA+ step relation (Machine.tla) + TLC trace judge over recorded Spec.Step/Walk calls"),
  "C05": ("Recorded walks of the real Spec.Walk are judged by TLC: ordered exactly-once consumption (prefix), step bound, exact remainder on limit/breakpoint, stride continuity, quiescence and no discard at a consuming node on Done, truthful breakpoints, every stride in the step relation, and equality of final state and emissions across every split into consecutive batches.",
-         "8.C05", "seeded specs with 2-3 nodes, <=4 messages, every split; split equivalence claimed for deterministic walks not stopped by limit/breakpoint",
-         "TLA+ walk predicates over Machine.tla + TLC trace judge over recorded walks in every split"),
+         "8.C05", "MC_Walk: TLC explores the Walk state machine over all 14,700 configurations (7x7 deterministic node shapes, message sequences <=3 over two messages, limits 0..4, breakpoint on/off) with the accounting properties as invariants, and every configuration is walked by the real engine in every split; plus seeded specs with 2-3 nodes and <=4 messages; split equivalence claimed for deterministic walks not stopped by limit/breakpoint",
+         "TLA+ Walk state machine model-checked by TLC (MC_Walk) + every configuration replayed into Spec.Walk + TLC trace judge"),
  "C06": ("Deep snapshots of every argument before/after each Step/Walk, map identity of returned bindings, and a second identical call on fresh copies are recorded; TLC judges Frame and Repeatable (where the step relation is a singleton).",
          "8.C06", "generation biased to failing actions, rejecting guards, error node, limit; spec snapshot covers what the engine could write",
          "TLC trace judge (frame conditions / repeatability) over recorded Step/Walk calls"),
